@@ -92,15 +92,14 @@ payload = [[0x61], [0xc3, 0xa9], [0x80], [0xff], [0x31], [0x2d], [0x2e], [0x00],
 allt += payload
 
 # --- reduced set for the later positions ---------------------------------------------------------
-small += [[m] for m in s('ZNTF[]{}$#Si')] + [[ord('X')]]
-small += [s('i') + [0], s('i') + [1], s('i') + [2], s('i') + [0xff], s('I') + [0, 1],
-          s('d') + be(0x3f800000, 4)]
+small += [[m] for m in s('ZNT[]{}$#i')] + [[ord('X')]]
+small += [s('i') + [0], s('i') + [1], s('i') + [2], s('i') + [0xff]]
 small += [s('Si') + [1, 0x61], s('Si') + [1, 0x80], s('Hi') + [1, 0x31], s('Hi') + [1, 0x61], s('C') + [0x61]]
 small += [s('i') + [1, 0x61], s('i') + [1, 0x62]]
-small += [s('$i'), s('$Z'), s('#i') + [0], s('#i') + [1], s('#i') + [2]]
+small += [s('$i'), s('$Z'), s('#i') + [0], s('#i') + [1]]
 small += [s('[#i') + [1], s('{#i') + [1], s('[$i#i') + [1], s('[$Z#i') + [2], s('{$i#i') + [1], s('{$Z#i') + [1], s('[$N#i') + [1]]
 small += [[0x61], [0xc3, 0xa9], [0x80], [0x01]]
-small += [s('$i#i') + [1], s('$Z#i') + [1]]
+small += [s('$i#i') + [1]]
 
 def uniq(xs):
     out, seen = [], set()
